@@ -95,6 +95,19 @@ def tie(tier, seed, replay):
             derived = sum(len(v) for n, v in r["spec"][k].items() if n.startswith("out") or n in ("mid", "jn", "cnt", "ne"))
             if derived and (rec or nhead > 1):
                 nontrivial.add((r["tagged_text"], json.dumps(inp, sort_keys=True)))
+    # mismatches of a listed known class are kept as the 40 smallest witnesses per class (all are counted);
+    # every mismatch outside the known classes is kept
+    by_known, kept = {}, []
+    for m in mism:
+        if m.get("known"):
+            by_known.setdefault(m["known"], []).append(m)
+        else:
+            kept.append(m)
+    known_counts = {k: len(v) for k, v in by_known.items()}
+    for k, v in by_known.items():
+        v.sort(key=lambda m: len(json.dumps(m["case"], default=str)))
+        kept += v[:40]
+    mism = kept
     samples = []
     for c in ds_cases[:2]:
         samples.append(dict(kind="history", suite=c["suite"], line=c10_ds.case_line(c)))
@@ -122,4 +135,4 @@ def tie(tier, seed, replay):
                       "std::sync::Mutex makes lock; add; unlock one atomic step (parallel `new`); rustc, hashbrown meet their documented semantics"],
         assumptions=["column values are small non-negative integers (u32 in the DS harness, i32 in programs); the element type only needs Clone + Hash + Eq",
                      "PROG expected values come from the specification oracle on the EXPLICIT program (Engine/Strat.v strat_fix, proved to compute the least / stratified model); that the real engine agrees with the oracle on the explicit program is asserted on every case (it is C01's subject)"],
-        extra=dict(ds_histories=len(ds_cases), prog_programs=len(results)))
+        extra=dict(ds_histories=len(ds_cases), prog_programs=len(results), known_class_mismatch_counts=known_counts))
